@@ -1,6 +1,6 @@
 import Httoop.Model.Uri
 import Httoop.Proofs.Bytes
-/- Lemmas about `collapse`, `splitOn1`/`joinWith` and the segment stack of `URI.abspath`. -/
+/- Lemmas about `collapse`, `splitOn1`/`joinWith` and the segment stack of `URI.abspathCore`. -/
 namespace Httoop
 
 theorem splitOn1_append_sep (c : Byte) (x y : Bytes) :
